@@ -148,6 +148,11 @@ def _file_cases(rng, n):
         out.append(dict(kind='file', spec=c, rows=[[0, 1]], other=arlfmt.gen(rng) if rng.random() < 0.5 else None))
     # on every run: a lat/lon grid of two columns (or two rows), the smallest the property quantifies over
     out.append(dict(kind='file', spec=arlfmt.gen(rng, small=2), rows=[[0, 1]], other=None))
+    # on every run: time stamps written with blanks in front of one-digit numbers (Fortran I2 fields)
+    cb = arlfmt.gen(rng)
+    cb['blankstamp'] = True
+    cb['t0'] = [2005, 1, 9, 0]
+    out.append(dict(kind='file', spec=cb, rows=[[0, 1]], other=None))
     # on every run: a variable that only the lower levels carry
     out.append(dict(kind='file', spec=arlfmt.gen(rng, partial=True), rows=[[0, 1]], other=None))
     return out
@@ -186,13 +191,21 @@ def _vardef_cases(rng, n):
         keys = [rng.sample(VKEYS[:4], rng.randint(1, 3))] + [rng.sample(VKEYS[4:], rng.randint(1, 4)) for _ in levels[1:]]
         sums = [[rng.randint(0, 254) for _ in k] for k in keys]
         out.append(dict(kind='vardef', rows=[[0, 1]], levels=[lib.show_rat(x) for x in levels], keys=keys, sums=sums))
+        if len(levels) >= 2 and len(out) % 3 == 0:
+            out[-1]['keyorder'] = list(range(1, len(levels))) + [0] if len(out) % 2 else list(range(len(levels)))[::-1]
     return out
 
 
 def _impl_vardef(case):
     from PseudoNetCDF.noaafiles._arl import writevardef, readvardef
     lv = [float(Fraction(x)) for x in case['levels']]
-    keys = {l: [k.encode() for k in ks] for l, ks in zip(lv, case['keys'])}
+    pairs = list(zip(lv, case['keys']))
+    # the dictionary of keys by level in an insertion order of its own (the surface entry last, reversed, by level value ...):
+    # a dictionary is looked up by level, its order says nothing
+    order = case.get('keyorder')
+    if order:
+        pairs = [pairs[i] for i in order]
+    keys = {l: [k.encode() for k in ks] for l, ks in pairs}
     sums = {(l, k.encode()): c for l, ks, cs in zip(lv, case['keys'], case['sums']) for k, c in zip(ks, cs)}
     try:
         txt = writevardef(lv, keys, sums)
@@ -254,6 +267,12 @@ def _impl_file(case):
                 raise
             except Exception as e:
                 return dict(err=type(e).__name__, msg=str(e)[:100], meta=meta)
+            try:
+                # the functional front end without a format: the same reader
+                import PseudoNetCDF as pnc
+                v['auto'] = type(pnc.pncopen(p)).__name__
+            except Exception as e:
+                v['auto'] = 'raised %s' % type(e).__name__
         v['meta'] = meta
         v['size'] = len(b)
         return v
@@ -283,6 +302,8 @@ def _oracle_file(case, res):
         return 'times %s, encoded %s' % (res['times'], want)
     if res.get('illformed'):
         return 'the file as read is not well formed: %s' % res['illformed']
+    if res.get('auto', 'arlpackedbit') != 'arlpackedbit':
+        return 'opening the file without naming a format: %s' % res['auto']
     for key, ab in res.get('absent', {}).items():
         if isinstance(ab, str):
             return 'variable %s: %s' % (key, ab)
